@@ -58,6 +58,81 @@ func AcceptNilErr(i int) Accept { return Accept{"nilerr", i} }
 func AcceptNonNil(i int) Accept { return Accept{"nonnil", i} }
 func AcceptAny() Accept         { return Accept{"any", 0} }
 
+// AcceptNegInt: the exits of a search helper on which nothing was found - an integer result that is not a
+// non-negative constant (`return -1`; a computed result counts, conservatively).
+func AcceptNegInt(i int) Accept { return Accept{"negint", i} }
+
+// knownNonNegative: a non-negative constant, a length, or the index variable of a counting/range loop.
+func knownNonNegative(v ssa.Value) bool {
+	v = stripConv(v)
+	if c, ok := constInt(v); ok {
+		return c >= 0
+	}
+	switch x := v.(type) {
+	case *ssa.Call:
+		return isCallTo(x, "builtin:len") || isCallTo(x, "builtin:cap")
+	case *ssa.Phi:
+		if !isInduction(x) {
+			return false
+		}
+		for _, e := range x.Edges {
+			if c, ok := constInt(e); ok && c < 0 {
+				return false
+			}
+		}
+		return true
+	case *ssa.BinOp:
+		// range loops count from -1 and use index+1
+		if ph, ok := x.X.(*ssa.Phi); ok && x.Op == token.ADD && isInduction(ph) {
+			if c, ok := constInt(x.Y); ok && c == 1 {
+				for _, e := range ph.Edges {
+					if k, isC := constInt(e); isC && k < -1 {
+						return false
+					}
+				}
+				return true
+			}
+		}
+	}
+	return false
+}
+
+// searchMissed: the atom says that a module-internal search helper with an integer result found nothing
+// (`firstBad(xs) >= 0` is false, `idx < 0`, `idx == -1`): returns the call.
+func searchMissed(a Atom) (*ssa.Call, bool) {
+	g, ok := parseGuard(normAtom(a), nil)
+	if !ok || g.Kind != "int" || !g.BoundA.isConst() {
+		return nil, false
+	}
+	c, isCall := stripConv(g.SubjV).(*ssa.Call)
+	if !isCall || c.Call.Signature().Results().Len() != 1 || !isIntegerType(c.Type()) {
+		return nil, false
+	}
+	f := staticCallee(c)
+	if f == nil || !inModuleFn(f) || f.Blocks == nil {
+		return nil, false
+	}
+	k := g.BoundA.C
+	if (g.Rel == "<" && k <= 0) || (g.Rel == "<=" && k < 0) || (g.Rel == "==" && k < 0) {
+		return c, true
+	}
+	return nil, false
+}
+
+// searchFound: the opposite - the helper returned an index (`firstBad(xs) >= 0`).
+func searchFound(a Atom) (*ssa.Call, bool) {
+	na := normAtom(a)
+	switch na.Want {
+	case True:
+		na.Want = False
+	case False:
+		na.Want = True
+	default:
+		return nil, false
+	}
+	return searchMissed(na)
+}
+
 // MustPass is a query: does every accepting path of Fn pass the obligation?
 type MustPass struct {
 	P   *Program
@@ -146,7 +221,7 @@ func (q *MustPass) Visited() []string {
 
 // retValue resolves defer-spilled results: `*t0 = v; rundefers; t = *t0; return t` yields v.
 func retValue(ret *ssa.Return, i int) ssa.Value {
-	v := ret.Results[i]
+	v := refRetRaw(ret, i)
 	u, ok := v.(*ssa.UnOp)
 	if !ok || u.Op != token.MUL {
 		return v
@@ -194,27 +269,35 @@ func acceptDemands(ret *ssa.Return, acc Accept) ([]demand, bool) {
 	}
 	switch acc.Kind {
 	case "errnonnil":
-		if acc.Result >= len(ret.Results) {
+		if acc.Result >= retCount(ret) {
 			return nil, false
 		}
 		return []demand{{retValue(ret, acc.Result), NonNil}}, true
 	case "any":
 		return nil, true
 	case "true":
-		if acc.Result >= len(ret.Results) {
+		if acc.Result >= retCount(ret) {
 			return nil, false
 		}
 		return []demand{{retValue(ret, acc.Result), True}}, true
 	case "nilerr":
-		if acc.Result >= len(ret.Results) {
+		if acc.Result >= retCount(ret) {
 			return nil, false
 		}
 		return []demand{{retValue(ret, acc.Result), Nil}}, true
 	case "nonnil":
-		if acc.Result >= len(ret.Results) {
+		if acc.Result >= retCount(ret) {
 			return nil, false
 		}
 		return []demand{{retValue(ret, acc.Result), NonNil}}, true
+	case "negint":
+		if acc.Result >= retCount(ret) {
+			return nil, false
+		}
+		if knownNonNegative(retValue(ret, acc.Result)) {
+			return nil, false
+		}
+		return nil, true
 	}
 	return nil, false
 }
@@ -537,6 +620,16 @@ func (q *MustPass) resolve(fn *ssa.Function, v ssa.Value, want Pred, depth int) 
 		if q.existsImplies(a, depth) {
 			return rDischarged, nil
 		}
+		// a search helper that found nothing ran its loop to the end: what every non-finding exit passed holds
+		if c, ok := searchMissed(a); ok {
+			if g := staticCallee(c); g != nil {
+				held := false
+				bindCall(c, g, func() { held = q.implied(g, AcceptNegInt(0), depth+1) })
+				if held {
+					return rDischarged, nil
+				}
+			}
+		}
 	}
 	// remember the fact: the same SSA value cannot have the opposite polarity on the same path
 	return rPending, []demand{{v, want}}
@@ -564,7 +657,17 @@ func callAndResult(v ssa.Value) (*ssa.Call, int) {
 		return x, 0
 	case *ssa.Extract:
 		if c, ok := x.Tuple.(*ssa.Call); ok {
-			return c, x.Index
+			return c, refResultIndex(c, x.Index)
+		}
+	case *ssa.Field, *ssa.FieldAddr:
+		if c, h, ok := bundledResult(v); ok {
+			return c, h
+		}
+	case *ssa.UnOp:
+		if x.Op == token.MUL {
+			if c, h, ok := bundledResult(x.X); ok {
+				return c, h
+			}
 		}
 	}
 	return nil, 0
